@@ -465,3 +465,12 @@ Fixpoint merge_simple_doc (fuel : nat) (t : node) : bool :=
   | O => false
   | S f => dom_step (merge_simple_doc f) (resolve f) t
   end.
+
+(* no map anywhere in the tree (alias targets included) writes a key twice *)
+Fixpoint nodup_tree (t : node) : bool :=
+  match t with
+  | Sc _ _ => true
+  | Sq _ l => forallb nodup_tree l
+  | Mp _ es => nodupb (keys es) && forallb (fun kv => nodup_tree (snd kv)) es
+  | Al t' => nodup_tree t'
+  end.
